@@ -888,6 +888,31 @@ def _same_source_as_single(cfg, flux):
     return set(b) <= set(want) or None
 
 
+def _step_values(I, cfg, index, node=None):
+    """what a single run reads from the forcing: the values of MetConfig.get_step(index) of that configuration, as interpreted
+    from the source (so a one-step copy of the forcing that stands for step i is the same run as step i of the series)"""
+    met = cfg.attrs.get("met") if isinstance(cfg, Opaque) else None
+    if not isinstance(met, Opaque):
+        return None
+    try:
+        f = I.getattr(met, "get_step", node)
+        step = I.call(f, [index], {}, node, {})
+    except AnalysisError:
+        return None
+    if not (isinstance(step, Tup) and step.kind == "dict"):
+        return None
+    out = []
+    for k, v in sorted(((k, v) for k, v in step.items if isinstance(k, str)), key=lambda kv: kv[0]):
+        out.append(k)
+        out.append(v if isinstance(v, Expr) else "none" if v is None else Unknown("step value %s" % k))
+    return out
+
+
+def _rest_of_config(cfg):
+    """the parts of a configuration other than the forcing (identity of the objects: a replaced copy shares them)"""
+    return tuple(id(v) for k, v in sorted(cfg.attrs.items()) if k not in ("met", "__class__", "__replaced_from__")) if isinstance(cfg, Opaque) else None
+
+
 def _single_stub(log, cfg=None):
     def stub(I, args, kwargs, node):
         names = ["config", "tower", "met_index", "surface_flux", "cache"]
@@ -904,6 +929,9 @@ def _single_stub(log, cfg=None):
             fx = alg.sym("no_flux")
         elif isinstance(flux, Expr):
             fx = flux
+        elif (isinstance(flux, Arr) and isinstance(b.get("config"), Opaque) and b["config"].attrs["solver"].attrs.get("footprint") is True and flux.shape is not None and len(flux.shape) == 2
+              and flux.shape[0].eq(b["config"].attrs["domain"].attrs["ny"]) and flux.shape[1].eq(b["config"].attrs["domain"].attrs["nx"])):
+            fx = alg.sym("no_flux")  # footprint mode reads only the shape of the field: any field on the configured grid gives the same run
         else:
             same = _same_source_as_single(b["config"], flux) if isinstance(b.get("config"), Opaque) else None
             if same is None:
@@ -913,7 +941,10 @@ def _single_stub(log, cfg=None):
         c = b["cache"]
         cx = alg.sym("cache:%s" % (c.name if isinstance(c, Opaque) else repr(c)))
         mi = b["met_index"] if isinstance(b["met_index"], Expr) else alg.sym("?index")
-        return alg.fn("single", tn, mi, fx, cx)
+        sv = _step_values(I, b.get("config"), mi, node)
+        if sv is None or any(isinstance(x, Unknown) for x in sv):
+            return Unknown("a single run whose forcing step cannot be read (%r)" % (b.get("config"),))
+        return alg.fn("single", tn, fx, cx, *sv)
 
     return stub
 
@@ -934,8 +965,21 @@ def _unk(pred, v):
     return ok, why
 
 
-def _expect_series(tower, nsteps, flux, cache_name):
-    """predicate: value is [single(tower, i, flux, cache) for i in range(n_steps)]"""
+def _expect_series(tower, nsteps, flux, cache_name, cfg=None, P=None):
+    """predicate: value is [single(tower, forcing of step i, flux, cache) for i in range(n_steps)]"""
+    def step_sig(i):
+        import props_wiring as pw
+
+        res = pw._run_method(P, "MetConfig", "get_step", cfg.attrs["met"], [i])
+        rets = [r for r in res if r.kind == "return"]
+        if len(res) != 1 or len(rets) != 1 or not (isinstance(rets[0].value, Tup) and rets[0].value.kind == "dict"):
+            return None
+        out = []
+        for k, v in sorted(((k, v) for k, v in rets[0].value.items if isinstance(k, str)), key=lambda kv: kv[0]):
+            out.append(k)
+            out.append(v if isinstance(v, Expr) else "none")
+        return out
+
     def check(v):
         if not (isinstance(v, Tup) and v.kind == "list" and len(v.items) == 1 and isinstance(v.items[0], GenList)):
             return False, "not a list generated over the time steps: %s" % repr(v)[:200]
@@ -944,7 +988,10 @@ def _expect_series(tower, nsteps, flux, cache_name):
             return False, "steps run over range(%r, %r, %r)" % (g.rng.start, g.rng.stop, g.rng.step)
         # the k-th element (k = 0 .. n_steps-1, whatever the loop variable is called or where it starts) must be step k
         i = alg.atom_expr(g.ivar)
-        want = alg.fn("single", tower.attrs["name"], i, flux if isinstance(flux, Expr) else alg.sym("no_flux"), alg.sym("cache:%s" % cache_name))
+        sig = step_sig(i)
+        if sig is None:
+            return False, "the forcing of a step cannot be read from MetConfig.get_step"
+        want = alg.fn("single", tower.attrs["name"], flux if isinstance(flux, Expr) else alg.sym("no_flux"), alg.sym("cache:%s" % cache_name), *sig)
         if not (isinstance(g.elem, Expr) and g.elem.eq(want)):
             return False, "element is %s, expected %s" % (repr(g.elem)[:200], want)
         return True, None
@@ -999,10 +1046,10 @@ def driver_obligations(P):
         obs.append(req_ob("R-SERIAL", site_ts, "one straight path (use_cache=%s%s)" % (use_cache, fl_tag), ok1, detail=str([(r.kind, r.raise_desc, r.path) for r in res])[:300]))
         if ok1:
             cname = "None" if not use_cache else "bldfm.cache.GreensFunctionCache"
-            ok, why = _unk(_expect_series(tower, nsteps, flux, cname), rets[0].value)
+            ok, why = _unk(_expect_series(tower, nsteps, flux, cname, cfg, P), rets[0].value)
             obs.append(req_ob("R-SERIAL", site_ts, "returns the single runs of this tower for met_index = 0..n_timesteps-1, in time order, with %s (use_cache=%s)" % (
                 "the supplied flux" if flux is not None else "the source each single run builds for itself from the configuration when none is supplied", use_cache), ok, detail=why, key={"driver": "timeseries", "flux": flux is not None}))
-            cfgs = [b["config"] is cfg and b["tower"] is tower for b, _, _, _ in log]
+            cfgs = [(b["config"] is cfg or _rest_of_config(b["config"]) == _rest_of_config(cfg)) and b["tower"] is tower for b, _, _, _ in log]
             obs.append(req_ob("R-SERIAL", site_ts, "every single run gets the driver's own configuration and tower", bool(cfgs) and all(cfgs)))
     # multitower
     site_mt = "src/bldfm/interface.py::run_bldfm_multitower"
@@ -1021,7 +1068,7 @@ def driver_obligations(P):
             okk = len(items) == len(towers) and all(pw.same_value(k, t.attrs["name"]) for (k, _), t in zip(items, towers))
             obs.append(req_ob("R-SERIAL", site_mt, "results are keyed by tower name in configuration order" + fl_tag, okk, detail=repr([k for k, _ in items])[:200]))
             for (k, v), t in zip(items, towers):
-                ok, why = _unk(_expect_series(t, nsteps, flux, "None"), v)
+                ok, why = _unk(_expect_series(t, nsteps, flux, "None", cfg, P), v)
                 obs.append(req_ob("R-SERIAL", site_mt, "each entry is the time series of its own tower" + fl_tag, ok, detail=why, key={"driver": "multitower", "flux": flux is not None}))
     # parallel
     site_p = "src/bldfm/interface.py::run_bldfm_parallel"
@@ -1136,7 +1183,7 @@ def driver_obligations(P):
                 okk = None
             obs.append(req_ob("R-ORDERED", site_p, "strategy %r: results keyed by tower name in configuration order" % strategy, okk, detail=repr([k for k, _ in items])[:200] + sched))
             for (k, v), t in zip(items, towers):
-                ok, why = _unk(_expect_series(t, nsteps, None, "None"), v)
+                ok, why = _unk(_expect_series(t, nsteps, None, "None", cfg, P), v)
                 obs.append(req_ob("R-ORDERED", site_p, "strategy %r: the entry of a tower is the time-ordered list of its own single runs" % strategy, ok, detail=(why or "") + sched if why else None, key={"strategy": strategy}))
             mis = [e for e in ret.events if e[0] == "misaligned-slice"]
             obs.append(req_ob("R-ORDERED", site_p, "strategy %r: flat results are re-assembled at the task boundaries" % strategy, not mis, detail=str(mis[:1]) if mis else None))
